@@ -922,6 +922,12 @@ func miceInst(c *core.Ctx, label string) *inst {
 	if c.Chance(label+".large", 1, 6) {
 		payload = c.BytesN(label+".payload", c.PickInt(label+".largeLen", 65535, 65536, 70000, 100000, 140000))
 		rs = c.PickInt(label+".largeRS", 4096, 16384, 100)
+		if c.Chance(label+".megabytes", 1, 4) {
+			// (payloads of a megabyte and more: where an encoder might go about its work differently)
+			payload = c.BytesN(label+".payload", c.PickInt(label+".megaLen", 1<<20, 1<<20+4097, 3<<20))
+			rs = c.PickInt(label+".megaRS", 4096, 16384)
+			c.Probe("MI encoder: payload of a megabyte or more")
+		}
 	}
 	// the payload is one resource inside a larger shared buffer (its neighbours follow
 	// it in the same backing array): nothing outside or inside it may be written
@@ -950,6 +956,11 @@ func miceDigestInst(c *core.Ctx, label string) *inst {
 	}
 	rs := c.PickInt(label+".rs", 1, 3, 16, 100, 4096)
 	payload := c.Bytes(label+".payload", 0, 400)
+	if c.Chance(label+".megabytes", 1, 12) {
+		payload = c.BytesN(label+".payload", c.PickInt(label+".megaLen", 1<<20, 1<<20+4097, 3<<20))
+		rs = c.PickInt(label+".megaRS", 4096, 16384)
+		c.Probe("MI encoder: payload of a megabyte or more")
+	}
 	in := &inst{name: label + ":mice.Encode(digest)"}
 	in.run = func(w io.Writer) error {
 		d, err := enc.Encode(io.Discard, payload, rs)
